@@ -24,7 +24,9 @@ META = dict(
         "Ok(mask) only for the forced singleton or when the mask is not all-zero (otherwise it stops "
         "with NoExtensionBias); R4 unsatisfiable numeric/string sub-schemas are rejected before a "
         "regex is generated (check_number_bounds dominates rx_int_range/rx_float_range; min>max and "
-        "emptiness checks dominate the string regex)."
+        "emptiness checks dominate the string regex); R5 the speculative row re-use watermark is reset to the "
+        "current row count by every writer (a stale row lets the mask allow a token the commit rejects, which "
+        "stops the engine in a non-accepting state)."
     ),
     not_decided=(
         "existence of a completion from every reachable state (needs grammar productivity and the "
@@ -173,6 +175,12 @@ def run(ctx):
         ctx.check(not still, "C03-R2", "agenda-before-push:" + c.rsplit("::", 1)[1], "process_agenda dominates just_push_row",
                   "%s pushes a row without running process_agenda first" % c, site=b.where(sites[0]))
     ctx.floor("C03-R2", "callers of just_push_row", len(callers), 1)
+
+    # ------------------------------------------------------------------ R5 speculative row re-use watermark
+    # (a stale re-used row makes the mask allow tokens the commit path rejects: the engine then stops in a
+    # non-accepting state; shared with C11-R3 / C01-R2 / C02-R3)
+    from . import c11 as _c11
+    _c11.watermark_values(ctx, "C03-R5")
 
     # ------------------------------------------------------------------ R3 empty mask => stop
     cm = ctx.body(TP + "::compute_mask_inner")
